@@ -72,10 +72,12 @@ def digest(model, base):
     name_re = re.compile(r'^(Batch|Part|[A-Za-z]+)_(\d+)$')
 
     def nname(n):
+        # default names are <ClassName>_<asset id>: the id part is relative to this model's first asset
         m = name_re.match(n) if isinstance(n, str) else None
-        if m and m.group(1) in ('Batch', 'Part'):
+        if m and (m.group(1) in ('Batch', 'Part') or default_names):
             return f'{m.group(1)}_{int(m.group(2)) - base}'
         return n
+    default_names = bool(model.spec.get('default_names'))
     data = {}
     for label, table in sysm.simulation_data.items():
         out = {}
@@ -85,13 +87,15 @@ def digest(model, base):
                 r = list(r) if isinstance(r, (tuple, list)) else [r]
                 if label in ('received_part', 'produced_part', 'supplied_new_part', 'device_failure') and len(r) > 1:
                     r[1] = norm(r[1]) if r[1] is not None else None
-                rows.append([repr(x) if not isinstance(x, (int, float, str, type(None), bool)) else x for x in r])
+                rows.append([repr(x) if not isinstance(x, (int, float, str, type(None), bool)) else nname(x)
+                             for x in r])
             out[nname(sub)] = rows
         data[label] = out
     devs = {}
     for did, dev in model.devs.items():
-        d = {'value': dev.value, 'history': [[h[0] if not isinstance(h[0], str) else re.sub(r'\d+$', '#', h[0])
-                                              if False else h[0], h[1], h[2], h[3]] for h in dev.value_history]}
+        d = {'value': dev.value, 'history': [[re.sub(r'target:(\w+)', lambda mm: 'target:' + str(nname(mm.group(1))),
+                                                      h[0]) if isinstance(h[0], str) else h[0], h[1], h[2], h[3]]
+                                             for h in dev.value_history]}
         for attr in ('produced_parts', 'received_parts_count', 'uptime', 'utilization_time',
                      'value_of_received_parts', 'cost_of_produced_parts', 'available_capacity'):
             if hasattr(dev, attr):
@@ -102,7 +106,7 @@ def digest(model, base):
         if hasattr(dev, 'level'):
             d['level'] = dev.level()
         if hasattr(dev, 'collected_parts'):
-            d['collected'] = [[nname(p.name), norm(p.id), [x.name for x in p.routing_history]]
+            d['collected'] = [[nname(p.name), norm(p.id), [nname(x.name) for x in p.routing_history]]
                               for p in dev.collected_parts]
         if hasattr(dev, '_part'):
             d['holding'] = [nname(p.name) if p is not None else None for p in (dev._part, dev._output)]
@@ -234,7 +238,26 @@ def run(sh):
         case = {'engine': 'repro', 'spec': spec, 'seed': seed}
         try:
             # (a) same seed twice (native random tie-breaks), different id offsets; another seed
+            if i % 3 == 0:
+                spec['default_names'] = True         # devices named <Class>_<id> by the library
             d1, ev1, _ = run_model(spec, seed, [total], 'native', offset=0)
+            # an id offset chosen so that the model's assets straddle a power of ten (Source_9 / Source_10 ...)
+            from simprocesd.model.factory_floor.asset import Asset as _A
+            c = _A._id_counter
+            target = 10 ** len(str(c))
+            if target - c < 20000:
+                nsrc = len([it for it in spec['items'] if it['kind'] == 'source'])
+                if nsrc >= 2:
+                    k = rng.randint(2, nsrc)        # the power of ten falls between two sources (created first)
+                else:
+                    k = rng.randint(1, max(1, len(spec['items'])))
+                d4, ev4, _ = run_model(spec, seed, [total], 'native', offset=max(0, target - c - k))
+                if d4 != d1:
+                    sh.violation('same_seed_differs', f'two runs with seed {seed} differ when the asset ids straddle '
+                                 f'{target}: {first_diff(d1, d4)}', case, engine='repro')
+                else:
+                    sh.count('same_seed_pairs_equal')
+                    sh.count('id_offsets_straddling_a_power_of_ten')
             d2, ev2, _ = run_model(spec, seed, [total], 'native', offset=rng.choice([1, 3, 5, 50, 500]))
             d3, ev3, _ = run_model(spec, seed + 1, [total], 'native', offset=2)
             sh.count('events', ev1 + ev2 + ev3)
@@ -251,7 +274,29 @@ def run(sh):
             cuts = sorted({rng.randrange(1, int(total * 8)) / 8.0 for _ in range(k)})
             pts = [0.0] + cuts + [total]
             segs = [b - a for a, b in zip(pts, pts[1:])]
-            u, evu, _ = run_model(spec, seed, [total], 'keyed', offset=rng.choice([0, 3]))
+            u, evu, mu = run_model(spec, seed, [total], 'keyed', offset=rng.choice([0, 3]))
+            # also split exactly at an instant at which a pool changed (a release at the very end of a run)
+            rtimes = sorted({r[0] for recs in mu.system.simulation_data.get('resource_update', {}).values()
+                             for r in recs if 0 < r[0] < total})
+            if rtimes and rng.random() < 0.7:
+                cuts = sorted(set(cuts) | {rng.choice(rtimes)})
+                pts = [0.0] + cuts + [total]
+                segs = [b - a for a, b in zip(pts, pts[1:])]
+                sh.count('splits_at_a_pool_change')
+            # ... and in particular at releases out of a fully used pool (somebody may be waiting for it)
+            hot = []
+            for rname, recs in mu.system.simulation_data.get('resource_update', {}).items():
+                for a, b in zip(recs, recs[1:]):
+                    if b[1] < a[1] and a[1] >= a[2] and 0 < b[0] < total:
+                        hot.append(b[0])
+            for cut in rng.sample(sorted(set(hot)), min(3, len(set(hot)))):
+                h, evh, _ = run_model(spec, seed, [cut, total - cut], 'keyed')
+                sh.count('splits_at_a_release_from_a_full_pool')
+                if h != u:
+                    sh.violation('split_differs', f'split at {cut} (a release out of a fully used pool) differs from the '
+                                 f'unsplit run: {first_diff(u, h)}', dict(case, segments=[cut, total - cut]),
+                                 engine='repro')
+                    break
             s, evs, _ = run_model(spec, seed, segs, 'keyed', offset=rng.choice([0, 5]))
             if u != s:
                 sh.violation('split_differs', f'split at {cuts} differs from the unsplit run: {first_diff(u, s)}',
